@@ -37,7 +37,42 @@ ENGINE_RULE = (
     "real parser/compiler/engine/Oomd::run; non-trivial = at least one action "
     "ran; distinct = distinct FNV-1a hash of the full event log")
 
+KILL_RULE = (
+    "one case = one seeded plan: cgroup tree (depth <= 3, wildcard-ambiguous "
+    "names, 0..45 pids per cgroup, prefer/avoid xattrs, oom.group), one or "
+    "two rulesets each with a real kill plugin (wrapped by the transparent "
+    "sim_wrap decorator) and its generated arguments, per-pid kill outcomes, "
+    "3-8 ticks with statistics drift, respawns, removals and re-creations; "
+    "non-trivial = at least one kill attempt; distinct = distinct event-log "
+    "hash")
+
 PROPS = {
+    "C01": {
+        "flavours": ["asan"],
+        "runs": {"quick": 3000, "thorough": 100000},
+        "rule": KILL_RULE,
+        "level_text": "seeded exploration of cgroup trees x kill-plugin "
+        "configurations x multi-tick histories with failing kills, respawns "
+        "and vanishing/re-created cgroups; every kill(2), setxattr(2), "
+        "control-file write and pidfd/process_mrelease call of the real "
+        "plugins is intercepted and judged: SIGKILL to a positive pid read "
+        "from cgroup.procs of the victim's subtree, victim matched by the "
+        "configured patterns, writes only on the victim incarnation, stop at "
+        "the first victim that was signalled.",
+    },
+    "C03": {
+        "flavours": ["asan"],
+        "runs": {"quick": 3000, "thorough": 100000},
+        "rule": KILL_RULE + "; metric values well separated (or deliberately "
+        "tied), all prefer/avoid spellings incl. both at once, oom.group, "
+        "per-cgroup kill outcomes that force fallback and backtracking",
+        "level_text": "seeded exploration; oracle = reference depth-first "
+        "victim order (preference > plugin rank, descend one level at a time "
+        "unless memory.oom.group, skip unpopulated, fall back after a victim "
+        "that yielded no signalled process, stop after the first success) "
+        "consuming the observed attempt sequence of the real plugins; ties are "
+        "compared as sets, documented ambiguities abstain and are counted.",
+    },
     "C02": {
         "flavours": ["asan"],
         "runs": {"quick": 4000, "thorough": 150000},
